@@ -199,6 +199,13 @@ Definition mk_input (bt : nat) (raw : list string) (lineno : nat) : input :=
 Definition flush (bt : nat) (raw : list string) (lineno : nat) : list input :=
   if nonempty raw then [mk_input bt raw lineno] else [].
 
+(* continue_input (commit 2db4963):
+       if not (line_is_comment and line[0:BLANK_SPACE_CONTINUE].strip()):
+           continue_input = "$" not in line and line.rstrip().endswith(" &")   *)
+Definition amp_data (line' : string) : bool :=
+  andb (negb (contains "$"%char line'))
+       (ends_with (String sp (String "&"%char "")) (rstrip line')).
+
 (* one step is one physical line; [lineno] = number of lines already read by this call;
    [rec] = read_data's recursion argument (True for the files pulled in by read cards): the top-level file is
    only read up to the blank line that ends its third block *)
@@ -226,7 +233,8 @@ Fixpoint rd_loop (w : nat) (rec : bool) (ls : list string) (lineno bc bt : nat) 
         then (pre, Some UnsupportedFeature)
         else
           let line' := takeS w line in
-          let cont' := ends_with (String sp (String "&"%char (String nl ""))) line' in
+          let cont' := if andb c (negb (all_space (takeS BLANK_SPACE_CONTINUE line))) then cont
+                       else amp_data line' in
           let (out, e) := rd_loop w rec r lineno' bc bt cont' (orb hnc (negb c)) (List.app raw1 [rstrip line']) in
           (List.app pre out, e)
   end.
@@ -441,7 +449,7 @@ Fixpoint wf_from (w bi : nat) (first amp cm : bool) (f : list string) : bool :=
 
 Definition wf_lines (w : nat) (f : list string) : bool := wf_from w 0 true false false f.
 
-(* ================================================================== C11: logical content, repaired reader
+(* ================================================================== C11: logical content
    The logical content of an input: its block type and the words of its data, i.e. of every line that is not a
    comment line (rule S5 on the stored line) the maximal runs of non-blank characters before the first '$',
    without the words "&" (MontePy's grammar: padding ::= padding "&").  Start line numbers, comment texts, blank
@@ -454,56 +462,6 @@ Definition line_words (x : string) : list string :=
 Definition logical_input (i : input) : nat * list string := (i_bt i, flat_map line_words (i_lines i)).
 Definition logical (ins : list input) : list (nat * list string) := map logical_input ins.
 
-(* proposed repair C11-1 of read_data:
-       if not (line_is_comment and line[0:BLANK_SPACE_CONTINUE].strip()):
-           continue_input = "$" not in line and line.rstrip().endswith(" &")
-   instead of   continue_input = line.endswith(" &\n")   evaluated on every line *)
-Definition amp_data (line' : string) : bool :=
-  andb (negb (contains "$"%char line'))
-       (ends_with (String sp (String "&"%char "")) (rstrip line')).
-Definition amp_nl (line' : string) : bool :=
-  ends_with (String sp (String "&"%char (String nl ""))) line'.
-
-Fixpoint rd_loop_fix (w : nat) (rec : bool) (ls : list string) (lineno bc bt : nat) (cont hnc : bool) (raw : list string)
-  : list input * option rd_err :=
-  match ls with
-  | [] => (flush bt raw lineno, None)
-  | l :: r =>
-      let lineno' := S lineno in
-      let line := expandtabs TABSIZE l in
-      let c := is_comment line in
-      if all_space line then
-        let bc' := S bc in
-        let bt' := if Nat.ltb bc' 3 then bc' else bt in
-        if andb (Nat.leb 3 bc') (negb rec) then (flush bt raw lineno', None)
-        else
-          let (out, e) := rd_loop_fix w rec r lineno' bc' bt' cont false [] in
-          (List.app (flush bt raw lineno') out, e)
-      else
-        let newinp := andb (negb (all_space (takeS BLANK_SPACE_CONTINUE line)))
-                     (andb (negb cont) (andb (negb c) (andb hnc (nonempty raw)))) in
-        let pre := if newinp then flush bt raw lineno' else [] in
-        let raw1 := if newinp then [] else raw in
-        if andb (contains "#"%char (takeS BLANK_SPACE_CONTINUE line)) (negb c)
-        then (pre, Some UnsupportedFeature)
-        else
-          let line' := takeS w line in
-          let cont' := if andb c (negb (all_space (takeS BLANK_SPACE_CONTINUE line))) then cont
-                       else amp_data line' in
-          let (out, e) := rd_loop_fix w rec r lineno' bc bt cont' (orb hnc (negb c)) (List.app raw1 [rstrip line']) in
-          (List.app pre out, e)
-  end.
-
-Definition read_data_fix_from (w : nat) (bt : nat) (ls : list string) : list input * option rd_err :=
-  rd_loop_fix w false ls 0 0 bt false false [].
-Definition read_data_fix_sub_from (w : nat) (bt : nat) (ls : list string) : list input * option rd_err :=
-  rd_loop_fix w true ls 0 0 bt false false [].
-
-Definition read_file_fix (w : nat) (bytes : string) : file_result :=
-  let fm := read_front_matters (file_lines bytes) in
-  let (ins, e) := read_data_fix_from w 0 (f_rest fm) in
-  mkFile (f_message fm) (f_title fm) ins e (overrun_count w (f_rest fm)).
-
 (* what a whole file (list of raw lines as iterated from the binary file) is read as *)
 Definition obs := (option string * list (nat * list string) * option rd_err)%type.
 
@@ -511,46 +469,18 @@ Definition read_lines (w : nat) (f : list string) : obs :=
   let fm := read_front_matters (map clean_line f) in
   let (ins, e) := read_data_from w 0 (f_rest fm) in (f_title fm, logical ins, e).
 
-Definition read_lines_fix (w : nat) (f : list string) : obs :=
-  let fm := read_front_matters (map clean_line f) in
-  let (ins, e) := read_data_fix_from w 0 (f_rest fm) in (f_title fm, logical ins, e).
-
-(* the files on which the current continue_input computation agrees with the repaired one (cleaned lines):
-   no comment line (is_comment, with its c in columns 1-5) ends in " &" or follows (directly or after other comment lines) a line continued by '&',
-   a data line ends in " &" + LF exactly when it has no '$' and, trailing blanks dropped, ends in " &",
-   and no block ends with a continued line *)
-Fixpoint amp_tidy_from (w : nat) (cont : bool) (ls : list string) : bool :=
-  match ls with
-  | [] => true
-  | l :: r =>
-      let line := expandtabs TABSIZE l in
-      if all_space line then andb (negb cont) (amp_tidy_from w false r)
-      else
-        let c := is_comment line in
-        if andb (contains "#"%char (takeS BLANK_SPACE_CONTINUE line)) (negb c) then true
-        else
-          let line' := takeS w line in
-          if andb c (negb (all_space (takeS BLANK_SPACE_CONTINUE line)))
-          then andb (negb cont) (andb (negb (amp_nl line')) (amp_tidy_from w false r))
-          else andb (Bool.eqb (amp_nl line') (amp_data line')) (amp_tidy_from w (amp_data line') r)
-  end.
-
-Definition amp_tidy (w : nat) (f : list string) : bool :=
-  amp_tidy_from w false (f_rest (read_front_matters (map clean_line f))).
-
+(* every line has at most w columns (tabs expanded, the line end not counted) *)
 Definition within_limit (w : nat) (f : list string) : bool :=
-  forallb (fun l => Nat.leb (String.length (expandtabs TABSIZE (clean_line l))) w) f.
+  forallb (fun l => Nat.leb (String.length (chomp (expandtabs TABSIZE (clean_line l)))) w) f.
 
 (* ================================================================== wire
    lines travel hex-encoded, joined by ',' ; "-" is the empty list
      data <w> <bt> <hexbytes>     read_data(fh, version, bt) on the cleaned lines of the bytes
      sub <w> <bt> <hexbytes>      read_data(fh, version, bt, True): a file pulled in by a read card
      file <w> <hexbytes>          whole top-level file
-     filefix <w> <hexbytes>       the same with the reader carrying proposed repair C11-1
      spec <w> <hexbytes>          spec_cards on the cleaned lines after the front matter
      wf <w> <hexbytes>            wf_lines on the cleaned lines after the front matter
-     logical <w> <hexbytes>       read_lines, read_lines_fix (title, logical inputs, error), amp_tidy, within_limit
-     datafix <w> <bt> <hexbytes>  as data, with the reader carrying proposed repair C11-1
+     logical <w> <hexbytes>       read_lines (title, logical inputs, error), within_limit
      iscomment <hex>   clean <hex>   expand <hex>   lines <hexbytes> *)
 Definition show_input (i : input) : string :=
   show_nat (i_bt i) ++ ":" ++ show_nat (i_start i) ++ ":" ++ show_list hex_encode (i_lines i).
@@ -594,15 +524,6 @@ Definition run_Lines (req : string) : string :=
           show_nat (fr_warn r)
       | None => "parse:err"
       end
-  | ["filefix"; w; h] =>
-      match parse_nat w with
-      | Some W =>
-          let r := read_file_fix W (hex_decode h) in
-          (match fr_message r with None => "none" | Some m => "m" ++ show_list hex_encode m end) ++ " " ++
-          show_opt (fr_title r) ++ " " ++ show_inputs (fr_inputs r) ++ " " ++ show_err (fr_err r) ++ " " ++
-          show_nat (fr_warn r)
-      | None => "parse:err"
-      end
   | ["spec"; w; h] =>
       match parse_nat w with
       | Some W =>
@@ -627,17 +548,8 @@ Definition run_Lines (req : string) : string :=
               show_opt t ++ " " ++
               (match lg with [] => "-" | _ => join ";" (map (fun c => show_nat (fst c) ++ ":" ++ show_list hex_encode (snd c)) lg) end)
               ++ " " ++ show_err e end in
-          show_o (read_lines W f) ++ " " ++ show_o (read_lines_fix W f) ++ " " ++
-          (if amp_tidy W f then "1" else "0") ++ " " ++ (if within_limit W f then "1" else "0")
+          show_o (read_lines W f) ++ " " ++ (if within_limit W f then "1" else "0")
       | None => "parse:err"
-      end
-  | ["datafix"; w; bt; h] =>
-      match parse_nat w, parse_nat bt with
-      | Some W, Some B =>
-          let ls := file_lines (hex_decode h) in
-          let (ins, e) := read_data_fix_from W B ls in
-          show_inputs ins ++ " " ++ show_err e ++ " " ++ show_nat (overrun_count W ls)
-      | _, _ => "parse:err"
       end
   | ["iscomment"; h] => if is_comment (hex_decode h) then "1" else "0"
   | ["clean"; h] => hex_encode (clean_line (hex_decode h))
